@@ -48,6 +48,7 @@ ASSUMPTIONS = [
 TRUSTED_EXTRA = ['translator/gen_oallex.py (rule table, flags of the rule bodies, first-character sets of the COMMENT alternatives)',
                  'harness/gen_oal_text.py (the writer\'s own offset/line/column counters are the position oracle)']
 CHUNK = 1500
+SKIP_LIMIT = 0.02         # largest tolerated share of position cases on which D could not be evaluated
 CASE_TIMEOUT_S = 12
 BUDGET_S = {'quick': 200, 'thorough': 1500}
 SEARCH_S = {'quick': 120, 'thorough': 600}
@@ -158,6 +159,15 @@ def generate(ctx):
             pl = G.layout(r, prog, r.choice(['wild', 'plain', 'plain', 'tight']))
             kind, text = G.mutate(r, prog, pl)
             yield {'kind': 'total', 'stream': 'mutation:' + kind, 'text': text}
+    # every `pos` case has been evaluated by now (the stream above is several chunks long): D is vacuous on a `pos`
+    # case the parser rejected or grouped differently from what was written - bound their share
+    n_pos_run = ctx.stats.get('kind_pos', 0)
+    skipped = ctx.stats.get('pos_unparsed', 0) + ctx.stats.get('pos_shape_differs', 0)
+    if n_pos_run and skipped > max(3, SKIP_LIMIT * n_pos_run):
+        raise common.HarnessError('%d of %d position cases could not be checked (%d rejected by the parser, %d with a '
+                                  'tree shape other than written): the position predicate D was vacuous on more than '
+                                  '%.0f %% of them' % (skipped, n_pos_run, ctx.stats.get('pos_unparsed', 0),
+                                                      ctx.stats.get('pos_shape_differs', 0), 100 * SKIP_LIMIT))
 
 
 def search(ctx, broken):
@@ -251,7 +261,7 @@ def run_impl(case):
     text = case['text']
     fails = []
     unsound = None
-    stats = {'kind_' + case['kind']: 1}
+    stats = {'kind_' + case['kind']: 1, 'pos_unparsed': 0, 'pos_shape_differs': 0}
     out, root, secs = _parse(text)
     lim = budget_s(len(text))
     short = text if len(text) <= 300 else text[:140] + ' ...[%d chars]... ' % len(text) + text[-60:]
